@@ -292,6 +292,12 @@ theorem c10_reachable_inv (nb : Nat) (payload : Nat → Payload) (batches : List
   rw [(run_nb_payload _ sched).2] at this
   exact this
 
+/-- the same for the publication mode the current source implements (`sourceMode`, extracted from `write_to_disk`) -/
+theorem c10_reachable_inv_source (nb : Nat) (payload : Nat → Payload) (batches : List Nat) (sched : List Act) :
+    ∀ i d, (run (init sourceMode nb payload batches) sched).res i = some d → d = payload i := by
+  rw [c11_source_mode]
+  exact c10_reachable_inv nb payload batches sched
+
 /-- **merged data survives**: while the data file is replaced by rename, every instant shows either the old or the new
 complete content -/
 theorem c10_harvest_survives (old new : Payload) (chunks k : Nat) :
